@@ -693,3 +693,41 @@ def m_sort(eng, m, args, dest_ts, st, where):
                 keys[j], keys[j + 1] = ite(swap, kb, ka), ite(swap, ka, kb)
     eng.write_ref(st, r, lambda old: Vc(v.ty, v.len, slots, v.n))
     return UNITV
+
+
+@model('slice::{to_vec,to_owned,into_vec}', r'^(?:core|std|alloc)::slice::<impl \[.+\]>::(to_vec|into_vec|to_owned)$|^<\[.+\] as ToOwned>::to_owned$')
+def m_to_vec(eng, m, args, dest_ts, st, where):
+    return deref(eng, st, args[0])
+
+
+@model('Iterator::zip', r'^<(.+) as Iterator>::zip::<.*>$')
+def m_zip(eng, m, args, dest_ts, st, where):
+    a, b = _iter_arg(eng, st, args[0]), _iter_arg(eng, st, args[1])
+    if a.kind != 'src' or b.kind != 'src':
+        raise Unsupported('zip of adapted iterators')
+    va, vb = a.a, b.a
+    n = min(va.n, vb.n)
+    tt = TStruct('tuple', [('0', None), ('1', None)])
+    slots = []
+    for i in range(max(va.ty.cap, 1)):
+        if i < n and va.slots[i] is not None and vb.slots[i] is not None:
+            slots.append(St(tt, [va.slots[i], vb.slots[i]]))
+        else:
+            slots.append(None)
+    ln = z3.simplify(z3.If(z3.ULT(va.len, vb.len), va.len, vb.len))
+    if not (z3.is_bv_value(z3.simplify(a.b)) and z3.simplify(a.b).as_long() == 0 and z3.is_bv_value(z3.simplify(b.b)) and z3.simplify(b.b).as_long() == 0):
+        raise Unsupported('zip of partly consumed iterators')
+    return It('src', Vc(TVec(None, max(va.ty.cap, 1)), ln, slots, n), bv(0, 64))
+
+
+@model('Iterator::sum / product over integers', r'^<(.+) as Iterator>::(sum|product)::<(u8|u16|u32|u64|usize)>$')
+def m_sum(eng, m, args, dest_ts, st, where):
+    it = _iter_arg(eng, st, args[0])
+    w = INTS[m.group(3)].w
+    acc = bv(0 if m.group(2) == 'sum' else 1, w)
+    for g, x in it_elems(eng, it, st, where, st.pc):
+        nxt = acc + x.t if m.group(2) == 'sum' else acc * x.t
+        if m.group(2) == 'sum':
+            eng.panic('overflow', where + ': iterator sum', AND(st.pc, g, z3.Not(z3.BVAddNoOverflow(acc, x.t, False))))
+        acc = z3.simplify(z3.If(g, nxt, acc))
+    return Sc(acc)
